@@ -755,6 +755,12 @@ NOTES = [
     "the table speaks about the boxes cached on containers (_bbox of groups, artboards and the document) and the dirty "
     "flag; the clipping relation has its own table (C15, Generated/ClipCurrent.lean); ShapeLayer._bbox, mask / effects "
     "views and memoised answers outside _bbox are not in it (searched only)",
+    "search widened with the table work: (a) purity pairs on shape layers whose box is derived from the canvas (bbox read / "
+    "not read before the layer - alone or inside a new group - is moved into a document of another size): found and "
+    "ea7a876 repairs ShapeLayer._bbox surviving the adoption by another document; (b) the fresh-twin oracle after every "
+    "edit of histories over the two inputs of the clipping relation the edit vocabulary lacked: blend mode of the base of a "
+    "clip run (pass-through -> normal -> multiply -> pass-through) x compatibility mode of the document, in both orders "
+    "(the twin is opened in the same compatibility mode)",
     "tableOk is sufficient, not necessary: it accepts the four block shapes the current code uses, in source order; a "
     "rewrite that invalidates correctly in another order is reported as a broken tie (VIOLATION without failing input "
     "unless the search finds one) and the shapes have to be extended",
